@@ -112,12 +112,25 @@ def _solve_one(args):
     t0 = time.time()
     res = {'idx': idx, 'verdict': None, 'backend': 'z3', 'ms': 0, 'model': None, 'reason': '', 'watch': {}}
     try:
+        r = z3.unknown
+        extra = []
         if o.kind == 'check' and not getattr(o, '_cong', False):
             extra = join_congruence(o.hyps, o.goal)
+            if extra and any(_has_quant(h) for h in o.hyps + [o.goal]):
+                # portfolio step 0: pure E-matching without the (pattern-free) congruence instances
+                s = z3.Solver()
+                s.set('auto_config', False)
+                s.set('smt.mbqi', False)
+                s.set('timeout', max(1000, min(4000, timeout_ms // 4)))
+                for h in o.hyps:
+                    s.add(h)
+                s.add(z3.Not(o.goal))
+                if s.check() == z3.unsat:
+                    r = z3.unsat
+                    res['backend'] = 'z3(ematch)'
             o.hyps = list(o.hyps) + extra
             o._cong = True
-        r = z3.unknown
-        if o.kind == 'check' and any(_has_quant(h) for h in o.hyps + [o.goal]):
+        if r == z3.unknown and o.kind == 'check' and any(_has_quant(h) for h in o.hyps + [o.goal]):
             # portfolio step 1: pure E-matching (no model-based instantiation); only `unsat` is taken from it
             s = z3.Solver()
             s.set('auto_config', False)
